@@ -335,6 +335,23 @@ def families():
             return s, None, None
         return dict(kind="orm", desc="orm name=%r opt=%s crit=%r uid=%s" % (nm, opt, v, uid), build=build)
 
+    @fam("orm_from_statement_params")
+    def f16b(rng):
+        # ORM from_statement() over text with a named bind valued through Executable.params() on the outer statement / on the text /
+        # at execute time
+        lo = rng.choice([18, 26, 40, 60])
+        how = rng.choice(["outer", "outer", "text", "exec"])
+        def build():
+            User = m["User"]
+            t = m["text"]("select id, name, age from users where age > :lo order by id")
+            if how == "text":
+                t = t.bindparams(lo=lo)
+            s = select(User).from_statement(t)
+            if how == "outer":
+                s = s.params(lo=lo)
+            return s, ({"lo": lo} if how == "exec" else None), None
+        return dict(kind="orm", desc="from_statement(text) lo=%s via %s" % (lo, how), build=build)
+
     @fam("exec_options")
     def f17(rng):
         yp = rng.choice([None, 1, 2])
